@@ -3,8 +3,8 @@ import json
 import os
 from ._std import *
 from .. import mirq as M
-from ..rules import panics, indexguard
-from ..facts import VERIF
+from ..rules import panics, indexguard, intervals
+from ..facts import VERIF, fixture_facts
 
 EXPLANATION = (
     "Static panic-construct inventory (R8) over the MIR of temporal_rs (workspace build with compiled data) and "
@@ -17,8 +17,14 @@ EXPLANATION = (
     "function/kind/ordinal, never by line); table entries that rest on a caller's validation carry guard obligations "
     "that are re-checked on every run by CFG-path extraction (the named guard must be decided on every path that "
     "reaches the kernel). A construct that is not discharged is a violation; reachable ones with a concrete input are "
-    "known findings. NOT decided here: arithmetic overflow of bounded-but-unknown values and termination of the "
-    "candidate loops (see DESIGN)."
+    "known findings. Rule R9 adds a context-sensitive interval + taint analysis over the same MIR for the arithmetic "
+    "assertions the compiler emits (overflow of + - * and negation, division by zero, shifts, bounds): values the caller "
+    "of a public function controls (numeric parameters, fields of duration/partial records, provider results, the "
+    "position found by a binary search) are tracked with their exact range through casts, field reads, `?`, closures, "
+    "generic instantiations and range checks; a site is reported only when operands whose bounds are attained by "
+    "independent caller-controlled sources can leave the type.  NOT decided: overflow that depends on relations between "
+    "values (loop counters, quotient times divisor, values correlated through comparisons) - such sites are counted as "
+    "unresolved, never reported - and termination of the candidate loops (see DESIGN)."
 )
 CRATES = ["temporal_rs", "temporal_capi"]
 
@@ -65,6 +71,61 @@ def guard_holds(fx, rs, fn_suffix, guard, kernel, want):
     if reach == 0:
         return False, "no path of %s reaches %s any more" % (f.name, kernel)
     return bad == 0, "%d of %d paths reach %s without `%s` == %s" % (bad, reach, kernel, guard, want)
+
+
+R9_CONTROL_BAD = {"bad_add", "bad_scale", "bad_index"}
+R9_CONTROL_GOOD = {"good_add", "good_scale", "good_index", "good_loop"}
+
+
+def r9(run, fx):
+    rule = "R9.caller-controlled-overflow"
+    run.rule(rule, "no arithmetic assertion (overflow of + - * or negation, division by zero, shift, bounds) can be made to fail "
+                   "by values the caller controls: every such site whose operands are exact caller-controlled ranges from "
+                   "independent sources must stay inside its type")
+    # controls: the engine must flag the three seeded overflows of the fixture crate and stay silent on their guarded twins
+    ceng = intervals.analyse(fixture_facts("r9_control"), ("r9_control",))
+    flagged = {p.rsplit("::", 1)[-1] for (p, k) in ceng.alarms}
+    run.control(rule, R9_CONTROL_BAD <= flagged, "fixtures/r9_control: bad_add, bad_scale, bad_index must be reported (got %s)" %
+                sorted(flagged))
+    run.check(not (flagged & R9_CONTROL_GOOD), rule, "negative-control", "guarded twins of the control crate are not reported",
+              "the engine reports guarded code of the control crate: %s" % sorted(flagged & R9_CONTROL_GOOD))
+    eng = intervals.analyse(fx, ("temporal_rs",))
+    from collections import Counter
+    st = Counter(eng.site.values())
+    run.analysed["r9_entry_points"] = eng.stats.get("entry_points", 0)
+    run.analysed["r9_function_contexts"] = eng.stats.get("contexts", 0)
+    run.analysed["r9_functions_analysed"] = eng.stats.get("functions", 0)
+    run.analysed["r9_sites_proved"] = st[0]
+    run.analysed["r9_sites_unresolved_not_reported"] = st[1]
+    run.analysed["r9_sites_reported"] = st[2]
+    run.analysed["r9_possible_but_inexact_not_reported"] = eng.stats.get("inexact_possible", 0)
+    if eng.stats.get("entry_points", 0) < 700 or len(eng.site) < 350:
+        run.anchor_missing(rule, "coverage", "only %d entry points / %d arithmetic sites analysed (expected >= 700 / >= 350)" %
+                           (eng.stats.get("entry_points", 0), len(eng.site)))
+    # stable keys: <function>/<kind>#<ordinal among the sites of that kind in the function, in block order>
+    per_fn = {}
+    for (p, k) in sorted(eng.site, key=lambda x: (x[0], x[1][0], x[1][1])):
+        per_fn.setdefault((p, k[0]), []).append(k[1])
+    for (p, k), status in sorted(eng.site.items(), key=lambda x: (x[0][0], x[0][1][0], x[0][1][1])):
+        ordinal = per_fn[(p, k[0])].index(k[1]) + 1
+        key = "%s/%s#%d" % (p.replace("temporal_rs::", ""), k[0], ordinal)
+        f = eng.fns[p]
+        if status == 2:
+            a = eng.alarms[(p, k)]
+            chain = " > ".join(x.replace("temporal_rs::", "").replace("builtins::core::", "") for x in a[4])
+            run.bad(rule, key, "%s  [reached through: %s]" % (a[1], chain), "%s:%s" % (f.file, a[2]))
+        elif status == 0:
+            run.ok(rule, key, "proved inside its type for every caller-controlled input", f.loc)
+        else:
+            run.ok(rule, key, "unresolved (operands of unknown or relational provenance): not reported", f.loc, nontrivial=False)
+    run.assumptions += [
+        "A-ISO/A-DUR: arguments of the record types IsoDate, IsoTime, IsoDateTime, PlainTime, PlainMonthDay, Duration, DateDuration "
+        "and TimeDuration satisfy their documented validity (the unchecked public constructors of these records are an escape "
+        "hatch; the duration ones are recorded under C02)",
+        "values of the six typestate-checked types (C02 rule R6) satisfy their limits wherever they come from",
+        "TimeZoneProvider methods are called with the epoch nanoseconds of a valid instant (+- one day)",
+        "debug assertions bound nothing (they vanish in release builds)",
+    ]
 
 
 def main(tier):
@@ -128,6 +189,7 @@ def main(tier):
                 ok = False
                 why = "the guard this entry relies on no longer holds: " + gwhy
         run.check(ok, rule, key, "reviewed: " + ent["reason"][:150], "%s in %s: %s" % (kind, f.name, why), loc)
+    r9(run, fx)
     stale = [k for k in review if k not in used and not any(k == "%s/%s#%d" % (f.path, kd, o) for f, kd, o, _, _ in inv)]
     run.analysed["review_entries"] = len(review)
     run.analysed["review_entries_stale"] = len(stale)
